@@ -1078,6 +1078,14 @@ func checkC16(h *XHistory) {
 					s.Fail("C16", "tcp-outcome-lost", "%s: UDP reply had TC, the TCP server answered properly with %d bytes at %v (the caller's limit ran until %v) and the caller got an error instead: %s", name, tr.Bytes, tr.At, c.Start+c.Limit, c.Err)
 				}
 			}
+			// every TCP answer in these runs has records, the one with the
+			// metadata among them: a message without it is not what the TCP
+			// server sent (nor anything else it sent whole)
+			if c.Msg != nil && !c.HasMeta && len(tcpReplies) > 0 && len(c.Msg.An)+len(c.Msg.Ns)+len(c.Msg.Ar) == 0 && h.XP.Net.UpCorrupt == 0 {
+				if t := h.XP.Tokens[c.C.Token]; t != nil && t.Ans.NAn > 0 && t.Ans2 == nil {
+					s.Fail("C16", "tcp-outcome-altered", "%s: UDP reply had TC; the caller got a message without any record (TC=%v) although the TCP server's answer (%d bytes) has %d answer records", name, c.Msg.Has(refdns.BitTC), u.Replies[tcpReplies[0]].Bytes, t.Ans.NAn)
+				}
+			}
 			if c.Msg != nil && len(tcpReplies) == 0 {
 				s.Fail("C16", "message-without-tcp-reply", "%s: UDP reply had TC and TCP never answered, yet a message was returned", name)
 			}
